@@ -64,7 +64,7 @@ def _expand_worker(args):
                     st["new"].append((k, start, h2))
                 else:
                     st["extra"]["rejected_transitions"] += 1
-                if len(st["samples"]) < 2 and (st["cases"] + seed) % 211 == 1:
+                if len(st["samples"]) < 2 and (int.from_bytes(oh[:4], "big") + seed) % 97 == 1:
                     st["samples"].append({"history": case.steps[:12],
                                           "last": {k2: rs[min(len(hist), len(rs) - 1)].get(k2) for k2 in ("st", "v", "e")}})
         st["outcomes"] = list(st["outcomes"])
